@@ -1,15 +1,19 @@
 #!/bin/sh
-# build the framework offline from files on disk: Coq proofs (full .vo), extracted driver, Go harness
-set -e
+# build the framework offline from files on disk: Coq proofs (full .vo), extracted drivers, Go harnesses.
+# Every property is built independently: a property that fails to build does not stop the others
+# (its own check will report it).
 cd "$(dirname "$0")/.."
 export GOFLAGS=-mod=mod GOPROXY=off GOSUMDB=off GOTOOLCHAIN=local CGO_ENABLED=0
 mkdir -p build evidence replays
-bin/coqmake
+bin/coqmake -k > build/setup-coq.log 2>&1 || echo "setup: some Coq files did not build (see build/setup-coq.log); the affected checks will say so"
 cp /repo/go.sum harness/go.sum
 for f in coq/Properties/C*.v; do
   p=$(basename "$f" .v)
-  sh ocaml/build.sh "$p"
+  [ -f "coq/Properties/$p.vo" ] || { echo "setup: $p theorems not built"; continue; }
+  sh ocaml/build.sh "$p" > "build/setup-ocaml-$p.log" 2>&1 || echo "setup: driver for $p not built"
   lc=$(echo "$p" | tr A-Z a-z)
-  if [ -d "harness/cmd/$lc" ]; then (cd harness && go build -tags verif -o "../build/vh-$p" "./cmd/$lc"); fi
+  if [ -d "harness/cmd/$lc" ]; then
+    (cd harness && go build -tags verif -o "../build/vh-$p" "./cmd/$lc") > "build/setup-go-$p.log" 2>&1 || echo "setup: harness for $p not built"
+  fi
 done
 echo setup ok
